@@ -722,11 +722,58 @@ def rule_status_not_overwritten(prog, fixture=False):
     return r
 
 
+# ---------------------------------------------------------------- R-C11-5
+WRITE_CALLS = {"write": 2, "pwrite": 2, "fwrite": None, "send": 2}
+
+
+def rule_short_writes(prog, fixture=False):
+    r = RuleResult("R-C11-5", "a POSIX write()/fwrite() that produces output is judged by whether it took every byte: its "
+                   "result is compared with the count requested (==, !=, < count), not merely tested for an error value "
+                   "(`< 0`): a short write would otherwise end in exit status 0 with a truncated file", floor=0)
+    for fn in prog.functions.values():
+        for n in fn.walk():
+            if n.get("k") != "CallExpr":
+                continue
+            base = notpl(n.get("q") or "")
+            if base not in WRITE_CALLS:
+                continue
+            a = call_args(n)
+            want = a[WRITE_CALLS[base]] if WRITE_CALLS[base] is not None and len(a) > WRITE_CALLS[base] else (a[2] if base == "fwrite" and len(a) > 2 else None)
+            if want is None:
+                continue
+            key = "%s::%s::%s#%d" % (fn.relfile(), fn.qn, base, len(r.instances) + 1)
+            # where does the result go?
+            p_ = fn.parent(n)
+            while p_ is not None and p_.get("k") in ("ImplicitCastExpr", "ParenExpr", "CStyleCastExpr", "CXXStaticCastExpr"):
+                p_ = fn.parent(p_)
+            cmps = []
+            if p_ is not None and p_.get("k") == "BinaryOperator" and p_.get("op") in ("==", "!=", "<", "<=", ">", ">="):
+                cmps.append(p_)
+            elif p_ is not None and p_.get("k") == "VarDecl":
+                for x in fn.walk():
+                    if x.get("k") == "BinaryOperator" and x.get("op") in ("==", "!=", "<", "<=", ">", ">=") and \
+                            any(y.get("k") == "DeclRefExpr" and y.get("d") == p_["d"] for y in walk(x)):
+                        cmps.append(x)
+            full = False
+            for c in cmps:
+                for side in c["c"]:
+                    if flow.same_expr(side, want) or (folded(want) is not None and folded(side) == folded(want)):
+                        full = True
+                    # through a local that holds the count
+                    ss, ws = strip_all(side), strip_all(want)
+                    if ss is not None and ws is not None and ss.get("k") == "DeclRefExpr" and ws.get("k") == "DeclRefExpr" and ss.get("d") == ws.get("d"):
+                        full = True
+            r.add(key, fn.loc(n), full, "result compared with the requested count" if full else
+                  "the result of %s() is %s: a short write (fewer bytes than asked, no error) is taken for success" %
+                  (base, "only tested against an error value" if cmps else "not compared with the count"))
+    return r
+
+
 def run(ctx):
     dfs = ctx.prog("dfs", "N")
     basic = ctx.prog("basic", "N")
     return [rule_dfs_epilogue(dfs), rule_cout_state_census(dfs), rule_ofstream_typestate(dfs),
-            rule_basic_epilogue(basic), rule_status_not_overwritten(dfs), _basic_status(basic)]
+            rule_basic_epilogue(basic), rule_status_not_overwritten(dfs), _basic_status(basic), rule_short_writes(dfs)]
 
 
 def _basic_status(basic):
